@@ -29,8 +29,8 @@ ANCHOR_FILES = ["src/ropt/ensemble_evaluator/_ensemble_evaluator.py", "src/ropt/
 RULE = ("case = one configuration; non-trivial if the run made at least one gradient (perturbation) request or is a population run; distinct key = case index; "
         "monitor_counters: traces compared, evaluator calls hashed")
 ASSUMPTIONS = ["differential_evolution is only required to be reproducible when given an explicit 'seed' option (as the statement says)"]
-REQUIRED = {"quick": {"trace_pairs_compared": 295, "evaluator_calls_hashed": 2515, "foreign_runs_interleaved": 144, "seed_sensitivity_checked": 30, "fresh_process_runs": 6, "same_step_reruns": 200, "runs_with_unscrambled_qmc_samplers": 15, "runs_with_relative_perturbations": 14, "generator_object_seed_reruns": 30, "fresh_process_runs_with_several_samplers": 120, "runs_with_a_foreign_run_inside": 70, "first_drawing_sampler_without_variables": 5, "__nontrivial__": 63},
-            "thorough": {"trace_pairs_compared": 6075, "evaluator_calls_hashed": 57264, "foreign_runs_interleaved": 3000, "seed_sensitivity_checked": 700, "fresh_process_runs": 75, "same_step_reruns": 4000, "runs_with_unscrambled_qmc_samplers": 300, "runs_with_relative_perturbations": 300, "generator_object_seed_reruns": 600, "fresh_process_runs_with_several_samplers": 700, "runs_with_a_foreign_run_inside": 1400, "__nontrivial__": 1245}}
+REQUIRED = {"quick": {"trace_pairs_compared": 295, "evaluator_calls_hashed": 1800, "foreign_runs_interleaved": 144, "seed_sensitivity_checked": 30, "fresh_process_runs": 6, "same_step_reruns": 200, "runs_with_unscrambled_qmc_samplers": 15, "runs_with_relative_perturbations": 14, "generator_object_seed_reruns": 30, "fresh_process_runs_with_several_samplers": 120, "runs_with_a_foreign_run_inside": 70, "runs_in_a_context_whose_earlier_plan_was_aborted": 70, "first_drawing_sampler_without_variables": 5, "__nontrivial__": 63},
+            "thorough": {"trace_pairs_compared": 6075, "evaluator_calls_hashed": 57264, "foreign_runs_interleaved": 3000, "seed_sensitivity_checked": 700, "fresh_process_runs": 75, "same_step_reruns": 4000, "runs_with_unscrambled_qmc_samplers": 300, "runs_with_relative_perturbations": 300, "generator_object_seed_reruns": 600, "fresh_process_runs_with_several_samplers": 700, "runs_with_a_foreign_run_inside": 1400, "runs_in_a_context_whose_earlier_plan_was_aborted": 1400, "__nontrivial__": 1245}}
 N = {"quick": 120, "thorough": 2500}
 SAMPLERS = ["norm", "uniform", "truncnorm", "sobol", "halton", "lhs"]
 
@@ -117,7 +117,7 @@ def _hash_arrays(h, arrs):
             h.update(str(a.dtype).encode() + str(a.shape).encode() + a.tobytes())
 
 
-def run_trace(spec, *, reseed=False, pm=None, ctx_holder=None, repeat=None, interleave=None, config=None):
+def run_trace(spec, *, reseed=False, pm=None, ctx_holder=None, repeat=None, interleave=None, config=None, after_abort=None):
     """Execute one optimizer step; return (digest, n_calls, perturbed rows digest, had_perturbations).
 
     repeat=k: the same step object of one plan is run k times with one validated configuration object (a restart loop);
@@ -137,8 +137,33 @@ def run_trace(spec, *, reseed=False, pm=None, ctx_holder=None, repeat=None, inte
                 run_trace(interleave)
             return ev(variables, context)
     ctx = OptimizerContext(evaluator=evaluator, plugin_manager=pm)
+    phase = {"foreign": False, "seen": 0}
+    if after_abort is not None:
+        # the context has served another plan before, which the user aborted after its second evaluation: a new plan in the same
+        # context is a new plan
+        from ropt.enums import OptimizerExitCode  # noqa: PLC0415
+        from ropt.exceptions import OptimizationAborted  # noqa: PLC0415
+
+        def aborter(_event):
+            if phase["foreign"]:
+                phase["seen"] += 1
+                if phase["seen"] >= 2:
+                    raise OptimizationAborted(exit_code=OptimizerExitCode.USER_ABORT)
+
+        ctx.add_observer(EventType.FINISHED_EVALUATION, aborter)
+        phase["foreign"] = True
+        plan0 = Plan(ctx)
+        import warnings as _w  # noqa: PLC0415
+
+        with _w.catch_warnings():
+            _w.simplefilter("ignore")
+            phase["code"] = plan0.run_step(plan0.add_step("optimizer"), config=ens.make_config_dict(after_abort))
+        phase["foreign"] = False
+        del ev.calls[:]
 
     def on_results(event):
+        if phase["foreign"]:
+            return
         for res in event.data["results"]:
             parts = [res.evaluations, res.realizations, getattr(res, "functions", None), getattr(res, "gradients", None)]
             for part in parts:
@@ -241,6 +266,13 @@ def run_case(case, obs):
     obs.count("runs_with_a_foreign_run_inside")
     if G[0] != A[0]:
         obs.violation("trace_depends_on_a_run_executed_during_this_one", samplers=spec["samplers"], calls=[A[1], G[1]])
+        return
+    # I: a new plan in a context whose earlier plan was aborted by the user
+    Ia = run_trace(spec, after_abort=_foreign(spec, rng))
+    obs.count("trace_pairs_compared")
+    obs.count("runs_in_a_context_whose_earlier_plan_was_aborted")
+    if Ia[0] != A[0]:
+        obs.violation("trace_depends_on_an_aborted_plan_in_the_same_context", samplers=spec["samplers"], calls=[A[1], Ia[1]], digest_differs=True)
         return
     # F: a restart loop - one step object of one plan run again and again with one validated configuration object
     for k, Fk in enumerate(run_trace(spec, repeat=3)):
